@@ -63,7 +63,7 @@ CHECKS["C15"] = ("TLC explores SenderImpl (print thread, reader thread, firmware
                  "termination and completeness modulo the two recorded findings; behaviours are projected onto corruption sets "
                  "and reply hold-points, replayed on the real printcore threads over a scripted serial port, and TLC re-derives "
                  "the firmware's view from the logged transmissions (framing, xor checksum, numbering, resend service, completeness); "
-                 "schedules include zero latency (reply handled before write() returns); the job life cycle (pause, resume, cancel, "
+                 "schedules include zero latency (reply handled before write() returns) and sequences of jobs on one connection; the job life cycle (pause, resume, cancel, "
                  "';@pause', second job) is model-checked (SenderJobsImpl) and real executions are validated against it.",
                  "5 C15", "Trusted: the Marlin-style firmware written in SenderTrace.tla; the fake serial port as the OS boundary; "
                  "event order under one lock (replies logged when the host's reader takes them).")
